@@ -53,11 +53,27 @@ structure Config where
   packageName     : Bytes := []
 deriving DecidableEq, Repr, Inhabited
 
-/-- environment of one `parse` call: the millisecond clock read by `setShuffle` and the
-    answer of the plugin chain for an argument that starts with `-p` -/
+/-- `TestPlugin::parseAllArguments(ac, av, index)` over a plugin chain (head = first plugin):
+    `if (parseArguments(…)) return true; if (next_) return next_->parseAllArguments(…); return false;`
+    — the plugins are asked in chain order until the first one accepts; a plugin's
+    `parseArguments` is represented by its answer for the argument `av[index]` -/
+def chainAnswer : List (Bytes → Bool) → Bytes → Bool
+  | [], _ => false
+  | p :: ps, a => if p a then true else chainAnswer ps a
+
+/-- how many plugins of the chain are asked about the argument -/
+def chainAsked : List (Bytes → Bool) → Bytes → Nat
+  | [], _ => 0
+  | p :: ps, a => if p a then 1 else 1 + chainAsked ps a
+
+/-- environment of one `parse` call: the millisecond clock read by `setShuffle` and the plugin
+    chain that `-p<x>` arguments are handed to -/
 structure Env where
-  time   : Nat
-  plugin : Bytes → Bool
+  time    : Nat
+  plugins : List (Bytes → Bool)
+
+/-- the answer of the plugin chain for an argument that starts with `-p` -/
+def Env.plugin (env : Env) (a : Bytes) : Bool := chainAnswer env.plugins a
 
 /-- `shuffleSeed_ = (unsigned int) GetPlatformSpecificTimeInMillis(); if (shuffleSeed_ == 0) shuffleSeed_++` -/
 def timeSeed (t : Nat) : Nat := if t % 2 ^ 32 = 0 then 1 else t % 2 ^ 32
